@@ -558,6 +558,26 @@ class Folder:
             self._depth -= 1
             self._in_body -= 1
 
+    def eval_state(self, fn: Func, symenv: Dict[str, Any]) -> Any:
+        """Like eval_body, but the answer is the environment after the body ran: locals by name, the underscore attributes
+        the body stored by access path ("self._addrgroup").  RaisesValue when the body raises, UNKNOWN when it does not fold."""
+        self._steps = 0
+        self._depth = getattr(self, "_depth", 0) + 1
+        self._in_body = getattr(self, "_in_body", 0) + 1
+        env = dict(symenv)
+        try:
+            self._block(fn.node.body, fn.module, env)
+            return env
+        except Raised as ex:
+            return RaisesValue(ex.exc_name)
+        except Unfoldable:
+            return UNKNOWN
+        except (TypeError, ValueError, KeyError, IndexError, ZeroDivisionError, AttributeError, OverflowError):
+            return UNKNOWN
+        finally:
+            self._depth -= 1
+            self._in_body -= 1
+
     def _block(self, stmts, mod: Module, env: Dict[str, Any]):
         import copy as _copy
 
@@ -579,6 +599,10 @@ class Folder:
                         raise Unfoldable("unpack")
                     for e, x in zip(tgt.elts, v):
                         env[e.id] = x
+                    continue
+                if isinstance(tgt, ast.Attribute) and isinstance(tgt.value, ast.Name) and tgt.value.id == "self" and tgt.attr.startswith("_") and getattr(self, "_in_body", 0):
+                    # a plain (underscore) attribute of the object: kept under its access path, as the symbolic inputs are
+                    env[ast.unparse(tgt)] = self._f(st.value, mod, env)
                     continue
                 if not isinstance(tgt, ast.Name):
                     raise Unfoldable("store")
